@@ -199,6 +199,9 @@ func (t *trTranslator) leanType(from *trUnit, ty types.Type, pos token.Pos) stri
 		}
 		t.needType(u, x.Origin(), pos)
 		base := t.qname(from, u, trMangle(x.Obj().Name()))
+		if from == u && t.methodNamed(u, trMangle(x.Obj().Name())) {
+			base = t.leanNS(u) + "." + base // inside `def T.Day …` the bare name `Day` would be the method
+		}
 		if x.TypeArgs() != nil && x.TypeArgs().Len() > 0 {
 			parts := []string{base}
 			for i := 0; i < x.TypeArgs().Len(); i++ {
@@ -290,12 +293,17 @@ var trPinned = map[string]trPin{
 	// dict.SortedKeys(m, cmp) = Keys(m) sorted by sort.Slice with less = (cmp == Smaller): for a comparator that is a strict total order
 	// on the (distinct) keys the result does not depend on the map's iteration order nor on the sorting algorithm: prelude `sortedKeys`
 	trKnutPath + "lib/common/dict.SortedKeys": {"func SortedKeys[K comparable, V any](m map[K]V, c compare.Compare[K]) []K { res := Keys(m) compare.Sort(res, c) return res }", "sortedKeys"},
+	trKnutPath + "lib/common/dict.Values":       {"func Values[K comparable, V any](m map[K]V) []V { res := make([]V, 0, len(m)) for _, v := range m { res = append(res, v) } return res }", ""},
+	// dict.SortedValues(m, cmp) = the values sorted by sort.Slice with less = (cmp == Smaller): independent of the iteration order and of the
+	// sorting algorithm when cmp is a strict total order on the values that occur: prelude `sortedValues`
+	trKnutPath + "lib/common/dict.SortedValues": {"func SortedValues[K comparable, V any](m map[K]V, c compare.Compare[V]) []V { res := Values(m) compare.Sort(res, c) return res }", "sortedValues"},
 	trKnutPath + "lib/common/dict.GetDefault": {"func GetDefault[K comparable, V any](m map[K]V, k K, c func() V) V { v, ok := m[k] if !ok { v = c() m[k] = v } return v }", ""},
 }
 
 // trPinDeps: pins whose meaning also depends on other pinned texts
 var trPinDeps = map[string][]string{
-	trKnutPath + "lib/common/dict.SortedKeys": {trKnutPath + "lib/common/dict.Keys", trKnutPath + "lib/common/compare.Sort"},
+	trKnutPath + "lib/common/dict.SortedKeys":   {trKnutPath + "lib/common/dict.Keys", trKnutPath + "lib/common/compare.Sort"},
+	trKnutPath + "lib/common/dict.SortedValues": {trKnutPath + "lib/common/dict.Values", trKnutPath + "lib/common/compare.Sort"},
 }
 
 func (t *trTranslator) checkPinned(f *types.Func, pos token.Pos) {
@@ -458,6 +466,8 @@ func (t *trTranslator) needType(u *trUnit, n *types.Named, pos token.Pos) {
 	case *types.Slice, *types.Map:
 		lt := t.leanType(u, ut, pos)
 		t.decls[u] = append(t.decls[u], fmt.Sprintf("/-- Go: `type %s %s` (%s) -/\nabbrev %s%s := %s\n", obj.Name(), ut, t.l.relPos(obj.Pos()), name, tparams, lt))
+	case *types.Interface:
+		t.needSumType(u, n, pos)
 	default:
 		trFail(pos, "declaration of type %s (%s) is outside the subset", obj.Name(), ut)
 	}
